@@ -109,6 +109,49 @@ theorem pad_pair (p : Str) :
   · have e : (max (0 : Int) 0).toNat = 0 := by decide
     simp [h1, h2, list_extend, e]
 
+theorem splitOnMax_ne_nil (c n : Nat) (p : Str) : splitOnMax c n p ≠ [] := by
+  induction p generalizing n with
+  | nil => cases n <;> simp [splitOnMax]
+  | cons x xs ih =>
+    cases n with
+    | zero => simp [splitOnMax]
+    | succ n =>
+      simp only [splitOnMax]
+      split
+      · simp
+      · split <;> simp
+
+theorem splitOnMax_single (c : Nat) (p a : Str) (h : splitOnMax c 1 p = [a]) : a = p := by
+  induction p generalizing a with
+  | nil => simp [splitOnMax] at h; exact h
+  | cons x xs ih =>
+    simp only [splitOnMax] at h
+    split at h
+    · simp [splitOnMax] at h
+    · split at h
+      · rename_i hn; exact absurd hn (splitOnMax_ne_nil _ _ _)
+      · rename_i q qs hq
+        simp only [List.cons.injEq] at h
+        obtain ⟨rfl, rfl⟩ := h
+        rw [ih q hq]
+
+/-- `pair.partition(",")`: the same two pieces, stripped one by one -/
+theorem partition_pair (p : Str) :
+    ∃ a b sep, str_partition (.str p) (.str [44]) = .ok (.tuple [.str a, .str sep, .str b]) ∧
+      Email.labelUrl p = (Email.strip a, Email.strip b) := by
+  simp only [Email.labelUrl, str_partition]
+  rcases splitOnMax_pair p with ⟨a, h1, h2⟩ | ⟨a, b, h1, h2⟩
+  · have := splitOnMax_single 44 p a h1
+    subst this
+    exact ⟨a, [], [], by simp [h1], by simp [h2, strip_nil]⟩
+  · exact ⟨a, b, [44], by simp [h1], by simp [h2]⟩
+
+/-- the last component of the loop state (the local declared last) whatever the number of other mutable locals -/
+class LastPy (σ : Type) where
+  last : σ → PyVal
+instance instLastPyPyVal : LastPy PyVal := ⟨fun v => v⟩
+instance instLastPyProd {α β : Type} [LastPy β] : LastPy (α × β) := ⟨fun p => LastPy.last p.2⟩
+
 def dictOf (acc : List (Str × Str)) : PyVal := .dict (acc.map fun p => (.str p.1, .str p.2))
 
 theorem dictLookup_strs (acc : List (Str × Str)) (k : Str) :
@@ -201,14 +244,19 @@ theorem _parse_project_urls_eq_model (l : List Str) :
       | none => .error "KeyError" := by
   unfold Gen.PySrc._parse_project_urls
   simp only [iterate_list, ok_bind, s_comma]
-  refine urls_forIn_bind (fun s : PyVal × PyVal × PyVal × PyVal => s.2.2.2) _ _ ?hstep ?hk l _ [] rfl
+  refine urls_forIn_bind LastPy.last _ _ ?hstep ?hk l _ [] rfl
   case hk =>
     intro s' d hs
+    simp only [LastPy.last] at hs
     simp only [hs, pure_ok]
   case hstep =>
     intro p s acc hs
+    simp only [LastPy.last] at hs
+    obtain ⟨pa, pb, psep, hpart, hlu⟩ := partition_pair p
+    have hlu1 : Email.strip pa = (Email.labelUrl p).1 := by rw [hlu]
+    have hlu2 : Email.strip pb = (Email.labelUrl p).2 := by rw [hlu]
     simp only [str_split_max_comma1, ok_bind, genexp_strip, list_iter, len_list, sub_int, max2_int, mul_singleton,
-      s_empty, pad_pair, unpack2_list, hs, dict_contains_dictOf]
+      s_empty, pad_pair, unpack2_list, hs, dict_contains_dictOf, hpart, unpack3, iterate_tuple, pure_ok, str_strip_str, hlu1, hlu2]
     by_cases hc : (acc.map (·.1)).contains (Email.labelUrl p).1 = true
     · simp only [hc, if_true, throw_err, err_bind]
     · have hc' : (acc.map (·.1)).contains (Email.labelUrl p).1 = false := by simpa using hc
